@@ -22,6 +22,9 @@ def handle : List String → Option String
   | ["c18.text", s] => do
       let s ← decStr s
       pure (if (setText s).isSome then "ok" else "err")
+  | ["c18.wrev", v] => do
+      let v ← v.toInt?
+      pure (match writeRevision v with | some t => encStr t | none => "refused")
   | ["c18.rev", s] => do
       if s == "none" then pure (toString (revisionOf none)) else
       let s ← decStr s
